@@ -1056,7 +1056,8 @@ def native_mag(rng, nit):
         return rng.choice((0, 1, -1, 3, -7, 42, 1000, 123456789, -250))
     fr = F(rng.choice((1, 1, -1)) * rng.randint(1, 9999), 1000) * F(10) ** rng.randint(-6, 6)
     if T is float:
-        return rng.choice((float(fr), float(fr), 1.5e20, -1.5e20, 2.5e-7, 1e22, 0.1, 1 / 3))
+        # (three-digit exponents too: the exponent rewriting of P / H / L must take all the digits)
+        return rng.choice((float(fr), float(fr), 1.5e20, -1.5e20, 2.5e-7, 1e22, 0.1, 1 / 3, 1e100, 2.5e120, -3.5e-105))
     if T is Decimal:
         return Decimal(fr.numerator) / Decimal(fr.denominator)
     return rng.choice((fr, F(1, 3), F(-22, 7), F(5, 2)))
